@@ -7,7 +7,8 @@ RULE = ("all lists and strings of length 0..4 (quick) / 0..5 (thorough) x all in
         "bounds x {read, element assign, range assign with rhs of length 0..len+1 as list and as string, concatenation laws}, concatenation through `+=` on every "
         "kind of target (variable, element, property, string key, nested) for lists and strings; "
         "Python slicing with explicit domain checks is the oracle; every operation predicted to fail runs in its own script; "
-        "non-trivial = distinct (sequence kind, length, operation, a, b, rhs length, predicted outcome)")
+        "non-trivial = distinct (sequence kind, operation, predicted output) for succeeding scripts — operations predicted to "
+        "print the same count once — and distinct (sequence kind, operation, sequence) for scripts predicted to fail")
 ASSUMPTIONS = ["strings are indexed by UTF-8 byte; slices that cut a multi-byte character are compared byte-wise in-language"]
 
 
@@ -279,7 +280,7 @@ def run(ctx, model_ok):
         impl, dis = tie.run(ctx, srcs, label, model_ok, project=tie.proj_out_pos)
         bad = []
         for (key, src, exp), r in zip(cs, impl):
-            ctx.nontrivial(key)
+            ctx.nontrivial((key[0], key[2] if len(key) > 2 else "", exp if not must_fail else ("fails", key[1] if len(key) > 1 else "")))
             ctx.dist(f"{key[0]}:{key[2] if len(key) > 2 else ''}:{'fail' if must_fail else 'ok'}")
             ok, why = oracle_one(ctx, src, r, (exp, must_fail))
             if not ok:
